@@ -1083,8 +1083,23 @@ def oracle_C14(scn, tr):
     want = set()
     outseg = bytearray()
     pend_status = None
+    ev_wait = None          # service calls without any write attempt since an event handler handed data over
     for l in tr:
         t = l.split()
+        # "meanwhile unsolicited events keep being delivered": while the command is suspended its machine
+        # writes nothing, so an event whose handler just returned data (DATA_OK / DATA_NEXT) must start to
+        # be written within the next few service calls (write attempts count, accepted or refused)
+        if t[0] == 'H' and t[1] in ('r', 't') and t[2] == '1' and t[-1] in ('0', '1'):
+            ev_wait = 0
+        elif t[0] == 'W':
+            ev_wait = None
+        elif t[0] == '=' and t[1] == 's' and ev_wait is not None and t[2] in ('0', '1'):      # a call whose lock failed does nothing
+            if state == 'HELD':
+                ev_wait += 1
+                if ev_wait == 6:
+                    fails.append('a command is held and an event handler returned data, but six cat_service calls later no byte of the event was offered to the output (events are not delivered during the hold)')
+            else:
+                ev_wait = None
         if t[0] == '>' and t[1] == 'x':
             pend_status = 'OK' if t[2] == '0' else 'ERROR'
         elif t[0] == 'H' and l.endswith('-> 4') and is_cmd_side(t):
